@@ -216,14 +216,25 @@ func buildClientMethod(p *Program, fd *ast.FuncDecl, sig *types.Signature) *Clie
 		})
 		return fld, ok
 	}
-	// 1. URL
-	if ds, ok := list[i].(*ast.DeclStmt); ok {
-		gd := ds.Decl.(*ast.GenDecl)
-		vs, _ := gd.Specs[0].(*ast.ValueSpec)
-		if vs == nil || len(vs.Values) != 1 {
-			und("first statement is not `var requestURL = c.BaseURL + …`")
-			return m
+	// 1. URL: `var requestURL = c.BaseURL + a + b…` or `requestURL := c.BaseURL` followed by
+	// `requestURL += a` statements — the concatenation operands in order, whatever the spelling
+	var urlInit ast.Expr
+	var urlObj types.Object
+	switch st := list[i].(type) {
+	case *ast.DeclStmt:
+		if gd, ok := st.Decl.(*ast.GenDecl); ok && gd.Tok == token.VAR && len(gd.Specs) == 1 {
+			if vs, _ := gd.Specs[0].(*ast.ValueSpec); vs != nil && len(vs.Values) == 1 && len(vs.Names) == 1 {
+				urlInit, urlObj = vs.Values[0], info.Defs[vs.Names[0]]
+			}
 		}
+	case *ast.AssignStmt:
+		if st.Tok == token.DEFINE && len(st.Lhs) == 1 && len(st.Rhs) == 1 {
+			if t := info.TypeOf(st.Rhs[0]); t != nil && types.Identical(t.Underlying(), types.Typ[types.String]) {
+				urlInit, urlObj = st.Rhs[0], identObj(info, st.Lhs[0])
+			}
+		}
+	}
+	if urlInit != nil && urlObj != nil {
 		var parts []ast.Expr
 		var flat func(e ast.Expr)
 		flat = func(e ast.Expr) {
@@ -234,7 +245,15 @@ func buildClientMethod(p *Program, fd *ast.FuncDecl, sig *types.Signature) *Clie
 			}
 			parts = append(parts, e)
 		}
-		flat(vs.Values[0])
+		flat(urlInit)
+		for i+1 < len(list) {
+			as, ok := list[i+1].(*ast.AssignStmt)
+			if !ok || as.Tok != token.ADD_ASSIGN || len(as.Lhs) != 1 || identObj(info, as.Lhs[0]) != urlObj {
+				break
+			}
+			flat(as.Rhs[0])
+			i++
+		}
 		if len(parts) == 0 || types.ExprString(parts[0]) != rc.recv.Name()+".BaseURL" {
 			und("request URL does not start with c.BaseURL")
 			return m
